@@ -92,7 +92,7 @@ def standin_bounded(prop, name=None, extra_args=()):
     """bounded stand-in: the executable relation of the property evaluated on the real code over the
     enumerated corpus of /verif/standin (stated bound: --n cases per class, seeded)."""
     def run(pc):
-        n = 260 if pc.tier == "quick" else 1200      # 260 >= every single-field boundary recipe of the largest class
+        n = 300 if pc.tier == "quick" else 1200      # 300 >= every single-field boundary recipe of the largest class (276)
         env = dict(os.environ)
         env["PYTHONPATH"] = VERIF
         env.setdefault("PYVC_REPO", front.REPO)
